@@ -220,10 +220,13 @@ def run_flash(case):
         elif expect_fail_at != len(groups) - 1:
             out.fail('flash:continued-after-failure', '%s: flash-writes continued after the failed one: %r' % (desc, [g[1] for g in groups]))
         return out
-    if raised is not None and len(groups[-1][1]) >= 6:
+    if raised is not None and groups and len(groups[-1][1]) >= 6:
         # positive reply only on the last permitted attempt: the pinned library reports this as a failure (retry counter
         # already exhausted). The property only requires a bounded retry followed by an abort, so both outcomes are accepted.
         out.feat('abort-on-last-attempt-success')
+        return out
+    if raised is not None and not groups:
+        out.fail('flash:fitting-image-refused', '%s raised %r before any flash-write although the image fits' % (desc, raised))
         return out
     if raised is not None:
         out.fail('flash:spurious-abort', '%s raised %r although every flash-write was answered positively (%r)' % (
